@@ -45,6 +45,7 @@ fn gen_run(rng: &mut Rng, sub: &str, thorough: bool, base: Option<&Params>, via_
         min_len: 0,
         dup_pct: 10,
             tab_desc_pct: 0,
+            utf8_id_pct: 0,
             dup_id_pct: 0,
     };
     let records = g.gen(rng);
